@@ -849,16 +849,27 @@ fn fdsnap_main(env: &mut VEnv, args: Vec<Field>) -> BuiltinFuture<'_> {
 
 const PROLOGUES: [&str; 5] = ["", "exec <&-\n", "exec >&-\n", "exec <&- >&-\n", "exec 2>&-\n"];
 
-/// `gen [piece]` : writes the case's payload to standard output (`write_all`, whole or piecewise).
+/// `gen [piece [delay [first]]]` : writes the case's payload to standard output with `write_all`:
+/// an optional first piece of `first` bytes, then pieces of `piece` bytes (0 = all the rest at once);
+/// with `delay` > 0 it sleeps that many ms of virtual time between pieces, so that a reader drains
+/// what has been written before the next piece arrives.
 fn gen_main(env: &mut VEnv, args: Vec<Field>) -> BuiltinFuture<'_> {
-    let piece: usize = args
-        .first()
-        .and_then(|f| f.value.parse().ok())
-        .unwrap_or(0);
+    let arg = |i: usize| -> usize { args.get(i).and_then(|f| f.value.parse().ok()).unwrap_or(0) };
+    let (piece, delay, first) = (arg(0), arg(1), arg(2));
     Box::pin(async move {
         let data = PAYLOAD.with(|p| p.borrow().clone());
-        let piece = if piece == 0 { data.len().max(1) } else { piece };
-        for chunk in data.chunks(piece) {
+        let first = first.min(data.len());
+        let (head, rest) = data.split_at(first);
+        let piece = if piece == 0 { rest.len().max(1) } else { piece };
+        let mut chunks: Vec<&[u8]> = vec![];
+        if !head.is_empty() {
+            chunks.push(head);
+        }
+        chunks.extend(rest.chunks(piece));
+        for (i, chunk) in chunks.iter().enumerate() {
+            if i > 0 && delay > 0 {
+                env.system.sleep(Duration::from_millis(delay as u64)).await;
+            }
             if env.system.write_all(Fd::STDOUT, chunk).await.is_err() {
                 return ExitStatus::FAILURE.into();
             }
@@ -1586,6 +1597,89 @@ fn run_rd(ws: &[&str]) -> (String, String) {
     (show_bytes(&got), oracle)
 }
 
+
+// ------------------------------------------------------------------------------------------
+// (ii-g) `read` on a pipe whose data arrives in pieces that cut multi-byte characters
+
+fn rp_filler(k: usize, salt: usize) -> Vec<u8> {
+    (0..k).map(|i| alpha(97, i + salt, 7)).collect()
+}
+
+fn rp_char(cs: usize) -> &'static [u8] {
+    match cs {
+        2 => "\u{e9}".as_bytes(),
+        3 => "\u{6771}".as_bytes(),
+        _ => "\u{1F600}".as_bytes(),
+    }
+}
+
+/// (line 1, line 2, leftover): line 1 has three `cs`-byte characters starting `d` bytes before byte `b`
+fn rp_parts(b: usize, d: usize, cs: usize) -> (Vec<u8>, Vec<u8>, Vec<u8>) {
+    let m = rp_char(cs);
+    let mut l1 = rp_filler(b.saturating_sub(d), 0);
+    for _ in 0..3 {
+        l1.extend_from_slice(m);
+    }
+    l1.extend_from_slice(&rp_filler(5, 3));
+    let mut l2 = b"two".to_vec();
+    l2.extend_from_slice(m);
+    let mut rest = b"rest".to_vec();
+    rest.extend_from_slice(m);
+    rest.extend_from_slice(b"\ntail");
+    (l1, l2, rest)
+}
+
+fn run_rp(ws: &[&str]) -> (String, String) {
+    let (b, d, cs) = (kv_n(ws, "b"), kv_n(ws, "d"), kv_n(ws, "cs"));
+    let (first, piece, dl) = (kv_n(ws, "first"), kv_n(ws, "piece"), kv_n(ws, "dl"));
+    let raw = kv_n(ws, "raw") != 0;
+    let (l1, l2, rest) = rp_parts(b, d, cs);
+    let mut data = l1.clone();
+    data.push(b'\n');
+    data.extend_from_slice(&l2);
+    data.push(b'\n');
+    data.extend_from_slice(&rest);
+    let r = if raw { "-r " } else { "" };
+    let script = format!(
+        "gen {piece} {dl} {first} | {{ IFS= read {r}a; s1=$?; IFS= read {r}b; s2=$?; echo \"$s1:$a\"; echo \"$s2:$b\"; cat; }} >/out"
+    );
+    PAYLOAD.with(|p| *p.borrow_mut() = data.clone());
+    let mut config = Config::new(&script);
+    config.max_rounds = 400_000;
+    let (out, value) = shell::run_with(
+        config,
+        |env, state| {
+            if state.borrow().now.is_none() {
+                state.borrow_mut().now = Some(std::time::Instant::now());
+            }
+            env.builtins.insert("gen", Builtin::new(Type::Mandatory, gen_main));
+        },
+        |_, state| shell::read_file(state, "/out"),
+    );
+    if out.stuck {
+        return ("TIMEOUT".into(), "FAIL:deadlock".into());
+    }
+    let got: Vec<u8> = value.flatten().unwrap_or_default();
+    // the statement, directly: both lines and the leftover arrive byte for byte, statuses 0
+    let mut want = b"0:".to_vec();
+    want.extend_from_slice(&l1);
+    want.extend_from_slice(b"\n0:");
+    want.extend_from_slice(&l2);
+    want.push(b'\n');
+    want.extend_from_slice(&rest);
+    let oracle = if got == want {
+        "ok".to_string()
+    } else {
+        let at = got
+            .iter()
+            .zip(want.iter())
+            .position(|(a, b)| a != b)
+            .unwrap_or(got.len().min(want.len()));
+        format!("FAIL:bytes-differ-at-{at}(got {} want {})", got.len(), want.len())
+    };
+    (show_bytes(&got), oracle)
+}
+
 // ------------------------------------------------------------------------------------------
 // case generation
 
@@ -1704,6 +1798,7 @@ fn run_case(case: &str) -> (String, String) {
         Some(&"hd") => run_hd(&ws[1..]),
         Some(&"lim") => run_lim(&ws[1..]),
         Some(&"rd") => run_rd(&ws[1..]),
+        Some(&"rp") => run_rp(&ws[1..]),
         _ => run_ops(case),
     }
 }
@@ -1786,6 +1881,31 @@ fn main() {
                 run(&case, false);
                 if form.contains("pipe") && (thorough || n <= PIPE_SIZE) {
                     run(&format!("{case} mon=1"), false);
+                }
+            }
+        }
+    }
+
+    // (ii-g) `read` on a pipe with multi-byte characters around every capacity boundary, the data
+    // arriving whole (cut by the pipe capacity) or in pieces that cut the characters at every position
+    let mut bounds = vec![PIPE_BUF, PIPE_SIZE, PIPE_SIZE + PIPE_BUF, 2 * PIPE_SIZE];
+    if thorough {
+        bounds.extend([3 * PIPE_SIZE, 4 * PIPE_SIZE, 5, 100]);
+    }
+    for &b in &bounds {
+        for d in 1..=3usize {
+            for cs in 2..=4usize {
+                let mut plans: Vec<(usize, usize, usize)> = vec![(0, 0, 0), (0, 7, 1), (0, 3, 0)];
+                for j in 1..(3 * cs) {
+                    plans.push((b - d.min(b) + j, 0, 1)); // first piece ends inside / between the characters
+                }
+                if thorough {
+                    plans.push((0, 1, 1));
+                    plans.push((0, PIPE_BUF + 1, 1));
+                }
+                for (first, piece, dl) in plans {
+                    let raw = rng.below(2);
+                    run(&format!("rp b={b} d={d} cs={cs} first={first} piece={piece} dl={dl} raw={raw}"), false);
                 }
             }
         }
